@@ -42,12 +42,20 @@ def name_expected(n):
 
 
 def gen_cases(ctx):
+    for i, case in enumerate(_gen_cases(ctx)):
+        if case.get("empty_name"):
+            case["name"] = ["", {"hex": ""}][i % 46 == 5]
+        yield case
+
+
+def _gen_cases(ctx):
     rng = ctx.sub_rng("c19")
     n = 3000 if ctx.tier == "quick" else 120000
     for i in range(n):
         kind = ["air", "ref", "ref", "adversarial", "random", "corrupt"][i % 6]
         svc = rng.choice(["battery", "temperature", "url", "raw", "none", "two"])
-        yield {"kind": kind, "svc": svc, "chan": (i // 6 + i) % 3,
+        empty_name = [None, "", {"hex": ""}][(i % 23 == 5) + (i % 46 == 5)]  # a zero-length name now and then
+        yield {"kind": kind, "svc": svc, "chan": (i // 6 + i) % 3, "empty_name": empty_name is not None,
                # str names, one-character names, byte names that are not valid UTF-8 (kept as bytes
                # by the receiver), UTF-8 multi-byte names; short-name (0x08) and complete-name (0x09) types
                "name": rng.choice([None, None, "n", "nRF24", "abcdefgh", {"hex": "80"}, {"hex": "6e52ff34"},
@@ -172,7 +180,7 @@ def run_case(ctx, case):
                 ads = [(0x01, b"\x05")]
                 if case["pa"]:
                     ads.append((0x0A, bytes([case["pa_level"] & 0xFF])))
-                if case["name"]:
+                if case["name"] is not None:
                     nv = name_value(case["name"])
                     ads.append((case.get("name_type", 8), nv.encode() if isinstance(nv, str) else nv))
                 sads, descr = build_ref_services(case, rng, j)
